@@ -70,7 +70,7 @@ pub(crate) fn config_setters_frame() {
     }
 }
 
-//@ C15 | complete | deciding | feat=full,auto | fn=Config::set_adjustment_percent
+//@ C15 | complete | deciding | feat=full,auto | fn=Config::set_adjustment_percent | panic=percent must be between 0 and 1
 #[kani::proof]
 #[kani::should_panic]
 pub(crate) fn config_set_percent_rejects_out_of_range() {
